@@ -8,18 +8,18 @@ V = os.path.dirname(os.path.dirname(os.path.abspath(__file__)))
 TB = 'trusted base: rvlib reference model / oracles, generated instrumented scripts, kernel O_APPEND ordering of the unified trace, /proc for the stuck detector'
 CHECKS = {
  'C01': ('exploration', 'Held on every exit-0 command of the generated histories: every target in the requested closure equals, byte for byte, an oracle evaluation of the graph; also after failing commands for everything the model says was brought up to date. Exploration is the right level: the property quantifies over graphs and histories that only generated executions of the real binary reach. I/O-fault layer: the same oracle after commands in which a libc call of redo failed or was short (ENOSPC/EIO/EACCES, once or persistently) and after the fault-free commands that follow.', '4/C01', 'content oracle over generated histories (reference model + pure-function scripts) + I/O-fault injection (LD_PRELOAD) with the same content oracle'),
- 'C02': ('exploration', 'Per command the multiset of script executions in the unified trace equals what the reference model (the property\'s iff-list) predicts; two keyed known findings are reported separately.', '4/C02', 'execution trace vs reference model over generated histories'),
+ 'C02': ('exploration', 'Per command the multiset of script executions in the unified trace equals what the reference model (the property\'s iff-list) predicts; two keyed known findings are reported separately. Retry layer: a target that fails for a transient reason and is retried with a forced redo until it succeeds in the same run is not run again by the next commands.', '4/C02', 'execution trace vs reference model over generated histories'),
  'C03': ('exploration', 'C02\'s oracle plus content oracle on graphs rich in (nested) checksummed targets with checksum-preserving and checksum-changing edits.', '4/C03', 'trace + contents vs reference model, checksum-biased generator'),
- 'C05': ('exploration', 'Exit status of every top-level and nested command, executed multiset, contents after --keep-going, and a per-process hook monitor (no job started after a known failure) over failure-rich histories.', '4/C05', 'trace/exit-status monitors + reference model over failure-rich histories'),
+ 'C05': ('exploration', 'Exit status of every top-level and nested command, executed multiset, contents after --keep-going, and a per-process hook monitor (no job started after a known failure) over failure-rich histories. Nested-redo, lock-contention and shared-failing-target layers (two requests for one failing target inside a run, the second begun while its script runs or after it failed).', '4/C05', 'trace/exit-status monitors + reference model over failure-rich histories'),
  'C09': ('exploration', 'Gate-driven enumeration of the ready-sets of one event loop per wake-up plus stress scenarios (wide fans, aliases, contending invocations, crossed orders, random parallel histories); oracle: no abort, no confirmed stuck state, exit 0 when all scripts succeed, tokens conserved on gate paths.', '4/C09', 'select()-gate schedule enumeration + stress with panic/stuck/exit monitors'),
  'C11': ('exploration', 'Fingerprints (inode, size, mtime, bytes) of user-owned files around every command, trace-level proof that their scripts never ran, content oracle for dependents, rebuild after removal, override warning. I/O-fault layer: the fingerprint oracle around commands in which a libc call of redo failed.', '4/C11', 'file fingerprint monitor + ownership automaton over generated histories + I/O-fault injection with the fingerprint oracle'),
- 'C14': ('exploration', 'Executed multiset per command vs reference model for ifcreate watchers and always nodes, plus error probes for redo-ifcreate.', '4/C14', 'trace vs reference model, ifcreate/always-biased generator'),
+ 'C14': ('exploration', 'Executed multiset per command vs reference model for ifcreate watchers and always nodes, plus error probes for redo-ifcreate; not-before layer (somebody else fails to build the watched path) and appears-as layer (the path appears as a directory, a link to one, a fifo, below new directories).', '4/C14', 'trace vs reference model, ifcreate/always-biased generator'),
  'C04': ('exploration', 'Exhaustive product of script behaviours x output sizes x prior target states, one command each, with an inotify event log, a concurrent reader and a strace-attributed subset; expected post-state is known from the generator. I/O-fault layer: after a command in which a create/write/rename/unlink of redo failed or was short every target is its previous content or the complete new one.', '4/C04', 'behaviour-product enumeration with inotify/strace/reader monitors + I/O-fault injection (LD_PRELOAD) with an old-or-complete oracle'),
  'C06': ('exploration', 'Three independent monitors under contending invocations with injected delays and aborts: order monitor over the unified trace, hook lock monitor (mutual exclusion, script alive without a holder, released before recorded), atomic F_GETLK probes of live scripts; hand-over scenario.', '4/C06', 'trace order monitor + hook-event monitor under contention and delay injection'),
- 'C07': ('exploration', 'Twin replay: same pre-history in two sandboxes, then serial vs scheduled run; compares files, exit status and a normalised database; per-run execution counts from the trace.', '4/C07', 'serial-vs-parallel twin comparison (files, status, normalised DB) with delay injection'),
+ 'C07': ('exploration', 'Twin replay: same pre-history in two sandboxes, then serial vs scheduled run; compares files, exit status and a normalised database; per-run execution counts from the trace. Hand-edit layer: a generated file below a diamond edited by hand several times - one execution per script per invocation, nothing in the next.', '4/C07', 'serial-vs-parallel twin comparison (files, status, normalised DB) with delay injection'),
  'C08': ('exploration', 'Harness-owned token and cheat pipes (byte accounting), on-exit self-check of own and nested jobservers, work-section overlap from the trace, per-process token ledger from hook events, gate-driven coincidences; borrowed-slot scenarios. I/O-fault layer: the harness-owned pipe is conserved after commands that left through an I/O error.', '4/C08', 'token conservation ledger (pipe bytes + hook events) and overlap monitor + I/O-fault injection with the pipe ledger'),
  'C10': ('fault_enumeration', 'LD_PRELOAD shim kills one process or the whole tree immediately before every state-changing libc call of a build; recovery protocol judged by content oracle.', '4/C10', 'crash-point enumeration (LD_PRELOAD kill shim) + recovery oracle'),
- 'C12': ('exploration', 'Systematic product of cycle length x prefix x siblings x entry node x -j x re-run; stuck detector and exit-status oracle.', '4/C12', 'cycle scenario enumeration with stuck detector'),
+ 'C12': ('exploration', 'Systematic product of cycle length x prefix x siblings x entry node x -j x re-run; stuck detector and exit-status oracle. Sibling layer: an acyclic job that waits for a member of the cycle while a member asks for it and the next member in one list.', '4/C12', 'cycle scenario enumeration with stuck detector'),
  'C13': ('exploration', 'Independent reference of candidate order and $1/$2/$3/cwd compared with redo-whichdo, with what the executed script echoes, and with possible_do_files called directly; add/remove mutation step.', '4/C13', 'differential against an independent reference (commands + direct calls)'),
  'C15': ('exploration', 'Exhaustive small-alphabet enumeration of the exported path functions against an independent reference and the kernel, Miri on a subset, command-level spelling pairs against Files rows and the trace.', '4/C15', 'exhaustive direct-call differential + Miri + command-level alias monitor'),
  'C16': ('exploration', 'Barrier-released concurrent invocations (builds and queries, existing and fresh projects) with delay injection; exit status/error text, integrity_check, row presence.', '4/C16', 'concurrent invocation stress with DB integrity and row-presence monitors'),
